@@ -526,7 +526,7 @@ func Run(c *engine.Ctx) {
 	c.Add("transitions", transitions)
 	c.Add("evaluations", transitions)
 	c.Add("traces_validated_against_impl", transitions)
-	c.Cov["rule"] = "explicit-state BFS over histories on alphabet {login, ticket(s1|s2|other-realm service), advance(+1s | next timer | earliest ticket end -1s/+1s | TGT end +1s | renew-till +1s | two ticket lifetimes elapsing with every timer firing at its own instant), destroy}: depth 5 (7 thorough) on three configurations (default; renewable short-lived with the KDC keeping / replacing the session key on renewal), depth 3 (4) on a pairwise-covering set of configurations over 10 settings; referral chains of length 0..12 and a 3-realm referral cycle, against the strict KDC and against KDCs tolerating the known authenticator-crealm finding; canonical state = sessions, cache entries and pending timers relative to the clock; distinct = canonical states"
+	c.Cov["rule"] = "explicit-state BFS over histories on alphabet {login, ticket(s1|s2|other-realm service), advance(+1s | next timer | earliest ticket end -1s/+1s | TGT end +1s | renew-till +1s | two ticket lifetimes elapsing with every timer firing at its own instant), destroy}: depth 4 (7 thorough) on six configurations (default; renewable short-lived with the KDC keeping / replacing the session key on renewal; three clients built from a credential cache holding a TGT and a service ticket of half its lifetime: not renewable, renewable, renewable with key replacement), depth 3 (4) on a pairwise-covering set of configurations over 10 settings; referral chains of length 0..12 and a 3-realm referral cycle, against the strict KDC and against KDCs tolerating the known authenticator-crealm finding; canonical state = sessions, cache entries and pending timers relative to the clock; distinct = canonical states"
 }
 
 // referralChains: chains within the bound succeed with a ticket of the last realm, longer ones and cycles fail
